@@ -25,6 +25,7 @@ CONSTANTS
   AdvMsgs = {}
   MaxAdv = 0
   Bridgers = {}
+  SplitFlush = FALSE
   MaxNow = 2
   MaxHandles = 1
   MaxCtr = 1
